@@ -3,9 +3,10 @@
 // coq/Proofs/CleanerGen.v are then re-proved about what it printed.  Anything outside the fragment is an error (exit 2):
 // the translator never guesses.
 //
-// usage: gotr [-set cleaners|sanity|retry] -repo DIR -out FILE
+// usage: gotr [-set cleaners|sanity|retry|buffer] -repo DIR -out FILE
 //
 // -set sanity / -set retry: see pure.go (straight-line functions over fixed-width integers -> coq/Model/GoFrag2.v).
+// -set buffer: see buffer.go (methods of Buffer over the receiver's fields as a record state -> coq/Model/GoFrag3.v).
 //
 // Targets of the default set "cleaners" (fixed): bigbuff.go DefaultCleaner; bigbuff.go FixedBufferCleaner (a function whose body is exactly
 // `return func(...) int {...}`: translated as one function over the outer followed by the inner parameters).
@@ -499,7 +500,7 @@ func intResult(ft *ast.FuncType) bool {
 func main() {
 	repo := flag.String("repo", "/repo", "source tree")
 	out := flag.String("out", "", "output .v file")
-	set := flag.String("set", "cleaners", "which functions: cleaners (GoFrag), sanity, retry (GoFrag2)")
+	set := flag.String("set", "cleaners", "which functions: cleaners (GoFrag), sanity, retry (GoFrag2), buffer (GoFrag3)")
 	flag.Parse()
 	var b strings.Builder
 	if tgs, ok := sets2[*set]; ok {
@@ -514,6 +515,13 @@ func main() {
 			}
 			translate2(fset, f, tg, &b)
 		}
+		emit(*out, b.String())
+		return
+	}
+	if tgs, ok := sets3[*set]; ok {
+		b.WriteString("(* GENERATED by harness/cmd/gotr -set " + *set + " from the current source - do not edit *)\n")
+		b.WriteString("From Coq Require Import List ZArith String.\nFrom BB.Model Require Import GoFrag GoFrag3.\nImport ListNotations.\nLocal Open Scope string_scope.\nLocal Open Scope Z_scope.\n\n")
+		translate3(*repo, tgs, &b)
 		emit(*out, b.String())
 		return
 	}
